@@ -625,15 +625,34 @@ func (e *Env) RDiscovery() {
 	if fd == nil {
 		return
 	}
-	var inspect *ast.CallExpr
+	// the discovery scan: the dst.Inspect whose callback looks at identifiers (a validation pass
+	// over the import specs alone, which returns an error before anything is recorded, is not it)
+	var inspect, first *ast.CallExpr
 	ast.Inspect(fd.Body, func(n ast.Node) bool {
 		if call, ok := n.(*ast.CallExpr); ok && inspect == nil {
 			if fn := c.Callee(call); schema.IsFunc(fn, load.PkgDst, "Inspect") {
-				inspect = call
+				if first == nil {
+					first = call
+				}
+				looksAtIdents := false
+				ast.Inspect(call, func(m ast.Node) bool {
+					if st, ok := m.(*ast.StarExpr); ok {
+						if _, tn := schema.NamedTypeName(pkg.TypesInfo.TypeOf(st)); tn == "Ident" {
+							looksAtIdents = true
+						}
+					}
+					return true
+				})
+				if looksAtIdents {
+					inspect = call
+				}
 			}
 		}
 		return true
 	})
+	if inspect == nil {
+		inspect = first
+	}
 	pos := e.Prog.Pos(fd.Pos())
 	if inspect == nil || len(inspect.Args) != 2 {
 		e.Run.Violation("R-DISC", "updateImports scans the file with dst.Inspect", pos, "no dst.Inspect call")
@@ -1158,14 +1177,18 @@ func (e *Env) resolveIdentReturns() {
 	}
 	const selX = `parent.(*SelectorExpr).X.(*Ident)`
 	check(load.PkgGotypes, "gotypes", []wantReturn{
-		{what: "a selector whose X is a package name resolves to the imported package's path",
+		{what: "a selector whose X is a package name resolves to the imported package's path, except for the cgo pseudo-package",
 			result: `r.Uses[` + selX + `].(*types.PkgName).Imported().Path()`,
-			cond:   `r.Uses != nil && ok(parent.(*SelectorExpr)) && parentField == "Sel" && ok(` + selX + `) && ok(r.Uses[` + selX + `]) && ok(r.Uses[` + selX + `].(*types.PkgName))`,
+			cond:   `r.Uses != nil && ok(parent.(*SelectorExpr)) && parentField == "Sel" && ok(` + selX + `) && ok(r.Uses[` + selX + `]) && ok(r.Uses[` + selX + `].(*types.PkgName)) && r.Uses[` + selX + `].(*types.PkgName).Imported().Path() != "C"`,
 			// a missing Uses entry reads as a nil Object, on which the type assertion fails as well
-			alt: `r.Uses != nil && ok(parent.(*SelectorExpr)) && parentField == "Sel" && ok(` + selX + `) && ok(r.Uses[` + selX + `].(*types.PkgName))`},
+			alt: `r.Uses != nil && ok(parent.(*SelectorExpr)) && parentField == "Sel" && ok(` + selX + `) && ok(r.Uses[` + selX + `].(*types.PkgName)) && r.Uses[` + selX + `].(*types.PkgName).Imported().Path() != "C"`},
 		{what: "any other used identifier resolves to its declaring package when it denotes a package-level object (declared in the package's own scope): not struct fields, universe objects, parameters, locals, type parameters, labels or package names",
 			result: `r.Uses[id].Pkg().Path()`,
-			cond:   `r.Uses != nil && !(ok(parent.(*SelectorExpr)) && parentField == "Sel") && ok(r.Uses[id]) && !(ok(r.Uses[id].(*types.Var)) && r.Uses[id].(*types.Var).IsField()) && r.Uses[id].Pkg() != nil && r.Uses[id].Parent() == r.Uses[id].Pkg().Scope()`},
+			cond:   `r.Uses != nil && !(ok(parent.(*SelectorExpr)) && parentField == "Sel") && ok(r.Uses[id]) && !(ok(r.Uses[id].(*types.Var)) && r.Uses[id].(*types.Var).IsField()) && r.Uses[id].Pkg() != nil && r.Uses[id].Parent() == r.Uses[id].Pkg().Scope()`,
+			// the selected name of a selector whose X is not an identifier (a call, a chain) is
+			// a field or a method: go/types gives those no parent scope, so the package-level
+			// test is false for them and letting them reach it changes nothing
+			alt: `r.Uses != nil && !(ok(parent.(*SelectorExpr)) && parentField == "Sel" && ok(` + selX + `)) && ok(r.Uses[id]) && !(ok(r.Uses[id].(*types.Var)) && r.Uses[id].(*types.Var).IsField()) && r.Uses[id].Pkg() != nil && r.Uses[id].Parent() == r.Uses[id].Pkg().Scope()`},
 	}, `r.Uses == nil`)
 	check(load.PkgGoast, "goast", []wantReturn{
 		{what: "the Sel of a selector whose X is an undeclared identifier resolves through the file's import table",
@@ -1619,10 +1642,14 @@ func (e *Env) goastImports() {
 	// the unquoted import path of the spec at hand, as written (node.Path.Value through the arm's
 	// variable, or through whatever the loop form calls the spec)
 	P := `mustUnquote(node.Path.Value)`
+	checkedUnquote := false // strconv.Unquote: the path's syntax error is a result, not a panic
 	for _, st := range body {
 		ast.Inspect(st, func(n ast.Node) bool {
 			if call, ok := n.(*ast.CallExpr); ok && len(call.Args) == 1 {
-				if fn := c.Callee(call); fn != nil && load.CanonName(fn) == "mustUnquote" {
+				if fn := c.Callee(call); fn != nil && (load.CanonName(fn) == "mustUnquote" || funcKey(fn) == "strconv.Unquote") {
+					if funcKey(fn) == "strconv.Unquote" {
+						checkedUnquote = true
+					}
 					if se, ok := call.Args[0].(*ast.SelectorExpr); ok && se.Sel.Name == "Value" {
 						if pe, ok := se.X.(*ast.SelectorExpr); ok && pe.Sel.Name == "Path" {
 							if t := c.Info.TypeOf(pe.X); t != nil && strings.HasSuffix(t.String(), "go/ast.ImportSpec") {
@@ -1695,7 +1722,15 @@ func (e *Env) goastImports() {
 		{"nothing is entered after the package-name resolver failed", `res1(` + RP + `) != nil && name == ""`},
 		{"a dot-import is never entered", `name == "."`},
 		{"a blank import is never entered", `name == "_"`},
+		{"a spec whose path is not a string literal is never entered", `res1(` + P + `) != nil`},
 	} {
+		if strings.HasPrefix(ob.not, "res1("+P) && !checkedUnquote {
+			// the path is unquoted by a function that panics on a malformed literal: go/parser
+			// returns files with such specs (together with its error) and the decorator decorates
+			// them, so the parse entry points panic
+			e.Run.Check("R-RESOLVER", "goast.imports: "+ob.what, pos, false, "the import path is unquoted with "+P+", which panics on a path that is not a well-formed string literal (`import fmt`): NewDecoratorWithImports(…).Parse panics on a file that go/parser returns with an error")
+			continue
+		}
 		okI, dec := implies(store.cond, ob.not)
 		if !dec {
 			e.Run.Undecided("R-RESOLVER", "goast.imports: "+ob.what, pos, "condition not propositional: "+store.cond)
@@ -2838,6 +2873,38 @@ func (e *Env) RNameSource() {
 		}
 		return true
 	})
+	// the package-name resolver is never asked about a pseudo-import: no resolver can find "C"
+	// (gopackages, gobuild and simple answer with an error), so an identifier that carries that
+	// path would make an unedited cgo file impossible to restore
+	nRes := 0
+	ast.Inspect(fd.Body, func(nd ast.Node) bool {
+		call, ok := nd.(*ast.CallExpr)
+		if !ok || len(call.Args) != 1 {
+			return true
+		}
+		fn := calleeFunc(info, call)
+		if fn == nil || fn.Name() != "ResolvePackage" {
+			return true
+		}
+		nRes++
+		pathArg := types.ExprString(call.Args[0])
+		cond, okc := pathCond(c, fd.Body.List, call)
+		if cond == "" {
+			cond = "true"
+		}
+		for _, k := range sortedKeys(consts) {
+			key := fmt.Sprintf("updateImports: the package-name resolver is never asked about the pseudo-import %q", k)
+			excl, dec := unsatWith(cond, pathArg+" == "+strconv.Quote(k))
+			if !okc || !dec {
+				e.Run.Undecided("R-NAMESRC", key, e.Prog.Pos(call.Pos()), "condition not propositional: "+cond)
+				continue
+			}
+			e.Run.Check("R-NAMESRC", key, e.Prog.Pos(call.Pos()), excl,
+				fmt.Sprintf("ResolvePackage(%s) is reachable for %s == %q under `%s`: %q is not a package a resolver can find, its error aborts the restore of an unedited cgo file whose identifiers carry that path", pathArg, pathArg, k, cond, k))
+		}
+		return true
+	})
+	e.Run.Floor("R-NAMESRC", "calls of the package-name resolver in updateImports", nRes, 1)
 	e.Run.Floor("R-NAMESRC", "findAlias call sites", n, 1)
 	// the name such a pseudo-import has in the code is the pseudo-path itself ("C" is always C): an
 	// empty name would make restoreIdent print C.int as a bare int. Somewhere in the naming code
